@@ -90,6 +90,25 @@ def run(ck, ix, tier):
             vals += [(v, st) for (v, kind, st) in defs.defs[magx.id] if v is not None]
         else:
             vals.append((magx, c))
+    # the value is only ever re-bound to the magnitude of the quantity it was given as: an uncertain number passed in is
+    # kept as the SAME object (re-building it from nominal_value / std_dev makes an independent variable and loses every
+    # correlation: m.to('cm') / m would no longer be exact)
+    rebinds = []
+    for a_ in walk_local(fn):
+        if isinstance(a_, ast.Assign):
+            for t_ in a_.targets:
+                if isinstance(t_, ast.Name) and t_.id == "value":
+                    rebinds.append((a_, a_.value))
+                elif isinstance(t_, (ast.Tuple, ast.List)):
+                    for i_, e_ in enumerate(t_.elts):
+                        if isinstance(e_, ast.Name) and e_.id == "value":
+                            rebinds.append((a_, a_.value.elts[i_] if isinstance(a_.value, (ast.Tuple, ast.List)) and len(a_.value.elts) == len(t_.elts) else a_.value))
+        elif isinstance(a_, (ast.AugAssign, ast.AnnAssign)) and isinstance(a_.target, ast.Name) and a_.target.id == "value" and getattr(a_, "value", None) is not None:
+            rebinds.append((a_, a_.value))
+    for a_, v_ in rebinds:
+        ck.check(norm(v_) in ("value.magnitude", "value.m", "value._magnitude"), "G-PROV", "Measurement.__new__|uncertain-value-kept-as-the-same-object", f.loc(a_),
+                 "`value` is only re-bound to the magnitude of the quantity passed in",
+                 f"`{norm(a_)}` re-binds `value` to `{norm(v_)}`: an uncertain number handed to Measurement must stay the same random variable, otherwise conversions and arithmetic results lose their correlation with the operands")
     kind_of = lambda v: "value" if norm(v) == "value" else ("ufloat(value, error)" if isinstance(v, ast.Call) and call_name(v) == "ufloat" and well_formed(v) else norm(v))
     texts = sorted({kind_of(v) for v, _ in vals})
     ck.check(texts == ["ufloat(value, error)", "value"], "G-PROV", "Measurement.__new__|magnitude-is-value-or-ufloat(value,error)", f.loc(sup[0]) if sup else f.loc(), "magnitude = value (already uncertain) | ufloat(value, error)",
